@@ -110,6 +110,9 @@ type Resolvable struct {
 	// wroteData records whether the `data` section has been written; together with
 	// wroteErrors it detects the errors-without-data case.
 	wroteData bool
+	// rootDataNull records that the initial response was written with "data":null (a non-null
+	// violation reached the root): nothing of the data tree was delivered, so no defer anchor is alive.
+	rootDataNull bool
 
 	// skipValueCompletion suppresses value-completion extension output for this
 	// render (set from the loader when a fetch had errors but no data).
@@ -238,6 +241,7 @@ func (r *Resolvable) Reset() {
 	r.enclosingTypeNames = r.enclosingTypeNames[:0]
 	r.wroteErrors = false
 	r.wroteData = false
+	r.rootDataNull = false
 	r.skipValueCompletion = false
 	r.data = nil
 	r.errors = nil
@@ -410,6 +414,7 @@ func (r *Resolvable) Resolve(ctx context.Context, rootData *Object, fetchTree *F
 		r.printErrors()
 	}
 
+	r.rootDataNull = hasErrors
 	if hasErrors {
 		r.printBytes(quote)
 		r.printBytes(literalData)
@@ -621,7 +626,7 @@ func (r *Resolvable) renderPath() {
 // to null in r.data when a non-null child null-propagated, so a dead anchor reads
 // back as null/absent here. An empty path refers to the root data object.
 func (r *Resolvable) deferAnchorAlive(path []string) bool {
-	if r.data == nil {
+	if r.data == nil || r.rootDataNull {
 		return false
 	}
 	v := r.data.Get(path...)
